@@ -117,7 +117,7 @@ def main():
     ap = argparse.ArgumentParser()
     ap.add_argument('prop'); ap.add_argument('--tier', default=os.environ.get('VERIF_TIER', 'quick'))
     ap.add_argument('--replay'); ap.add_argument('--only'); ap.add_argument('--keep', action='store_true'); ap.add_argument('-j', type=int, default=9)
-    ap.add_argument('--list', action='store_true')
+    ap.add_argument('--list', action='store_true'); ap.add_argument('--noevidence', action='store_true')
     a = ap.parse_args()
     seed = int(os.environ.get('VERIF_SEED', '0') or 0)
     load_specs()
@@ -136,7 +136,7 @@ def main():
         if not checks:
             print('no checks registered for %s' % prop); return 2
         kf = known_findings()
-        replay_dir = os.path.join(vf.VERIF, 'evidence', 'replay', prop)
+        replay_dir = os.path.join(vf.VERIF, 'evidence', 'replay', prop) if not a.noevidence else os.path.join(work, 'replay')
         if os.path.isdir(replay_dir): shutil.rmtree(replay_dir)
         # build instantiation units first (serially per group, they are few), then run checks in parallel
         broken_groups = {}
@@ -169,7 +169,7 @@ def main():
             if d.verdict == 'broken': print('BROKEN %s: %s' % (d.check.id, d.reason[:1500]))
         if any(d.verdict == 'violation' for d in decisions): rc = 1
         elif any(d.verdict in ('broken', 'undecided') for d in decisions): rc = 2
-        write_evidence(prop, a.tier, seed, decisions, time.time()-t0)
+        if not a.noevidence: write_evidence(prop, a.tier, seed, decisions, time.time()-t0)
         print('%s: %d checks, %d obligations, exit %d, %.1fs' % (prop, len(decisions), sum(len(d.results[0].obligations) for d in decisions), rc, time.time()-t0))
         return rc
     finally:
@@ -178,11 +178,14 @@ def main():
 
 def write_evidence(prop, tier, seed, decisions, wall, broken=None):
     obl = 0; dis = 0; samples = []; fns = []; per_mode = {}; solver = 0.0; cut = set(); ext = set(); bounded = []
-    per_class = {}; lemma_n = 0; viol = 0; known = 0; nfn = 0
+    per_class = {}; lemma_n = 0; viol = 0; known = 0; nfn = 0; known_obl = 0
     for d in decisions:
         r = d.results[0]
         ok_here = 0
+        known_names = {rec['obligation_name'] for _, rec in d.known}
         for ob in r.obligations:
+            if ob['status'] != 'SUCCESS' and ob['name'] in known_names:
+                known_obl += 1; continue       # failing obligation of a recorded known finding: reported separately, not counted as an obligation of the proof
             obl += 1
             if ob['status'] == 'SUCCESS' or ((d.check.misuse or d.check.reject_ok) and ob['class'] == 'lib_assert'): dis += 1; ok_here += 1   # misuse checks: the obligation is that the assertion FIRES
             per_class[ob['class']] = per_class.get(ob['class'], 0) + 1
@@ -213,7 +216,7 @@ def write_evidence(prop, tier, seed, decisions, wall, broken=None):
               coverage=dict(obligations=obl, discharged=dis, checker_cmd='tools/runner.py %s --tier %s  (per check: goto-cc; goto-instrument --dfcc harness --enforce-contract <fn>; cbmc --sat-solver cadical)' % (prop, tier),
                             trusted_base=trusted, samples=samples or [dict(note='no check ran')], functions_under_contract=fns, per_mode=per_mode, per_class=per_class,
                             lemma_instances=lemma_n, lemma_schemas_proved_by='lean 4 core (lemmas/Lemmas.lean)', solver_time_s=round(solver, 1),
-                            bounded=bounded, known_findings_reported=known, vacuity_guard='every check carries a CANARY assertion after the call that must FAIL (reachability of the end of the harness under requires+lemmas)',
+                            bounded=bounded, known_findings_reported=known, undischarged_obligations_of_known_findings=known_obl, vacuity_guard='every check carries a CANARY assertion after the call that must FAIL (reachability of the end of the harness under requires+lemmas)',
                             explanation=('BOUNDED stand-in (not counted as proof): contracts of the real lifecycle code checked by CBMC with all loops fully unwound (unwinding assertions on) for the stated bounds on the number of elements; every failure injection point of every hook is explored symbolically. ' if bounded else '') + 'contract-based deductive verification of the functions of /repo this property depends on; see DESIGN.md'),
               assumptions=assumptions, wall_s=round(wall, 1), violations=viol)
     os.makedirs(os.path.join(vf.VERIF, 'evidence'), exist_ok=True)
